@@ -1073,44 +1073,56 @@ const (
 	allStDev = `{"Hs", "Cred", "Ban", "Query", "Tick", "Unban", "Unbl", "Clean", "CleanL", "MUnban", "Blk", "BlkP", "MUnbl", "Wl", "UnWl", "dev"}`
 )
 
-func mcJob(name, procs, acts, atomic, fixed, invs string, ban, maxClock int) fw.TLCJob {
-	return fw.TLCJob{Name: name, Module: "BruteForce", Cfg: "BruteForce_mc.cfg", Workers: 8, Timeout: 12 * time.Minute,
-		Consts: map[string]string{"PROCS": procs, "BAN": strconv.Itoa(ban), "MAXCLOCK": strconv.Itoa(maxClock), "ACTS": acts,
-			"ATOMIC": atomic, "FIXED": fixed, "INVS": invs}}
+// tm = time constants of a model configuration: threshold, permanent threshold, window, ban (ticks), clock bound
+type tm struct{ thr, perm, win, ban, clock int }
+
+func (t tm) consts() map[string]string {
+	return map[string]string{"THR": strconv.Itoa(t.thr), "PERMAT": strconv.Itoa(t.perm), "WIN": strconv.Itoa(t.win), "BAN": strconv.Itoa(t.ban),
+		"MAXCLOCK": strconv.Itoa(t.clock), "MAXTOTAL": strconv.Itoa(t.perm + 1)}
 }
 
-func genJob(name, procs, acts, atomic, fixed, emit string, permAt, ban, maxClock int) fw.TLCJob {
-	return fw.TLCJob{Name: name, Module: "BruteForce", Cfg: "BruteForce_gen.cfg", Workers: 4, Timeout: 10 * time.Minute,
-		Consts: map[string]string{"PROCS": procs, "PERMAT": strconv.Itoa(permAt), "BAN": strconv.Itoa(ban), "MAXCLOCK": strconv.Itoa(maxClock),
-			"ACTS": acts, "ATOMIC": atomic, "FIXED": fixed, "EMITACTS": emit, "MAXHIST": "999", "VIEW": "VIEW view"}}
+func mcJob(name, procs, acts, atomic, fixed, invs string, t tm) fw.TLCJob {
+	c := t.consts()
+	c["PROCS"], c["ACTS"], c["ATOMIC"], c["FIXED"], c["INVS"] = procs, acts, atomic, fixed, invs
+	return fw.TLCJob{Name: name, Module: "BruteForce", Cfg: "BruteForce_mc.cfg", Workers: 8, Timeout: 12 * time.Minute, Consts: c}
+}
+
+func genJob(name, procs, acts, atomic, fixed, emit string, t tm) fw.TLCJob {
+	c := t.consts()
+	c["PROCS"], c["ACTS"], c["ATOMIC"], c["FIXED"], c["EMITACTS"], c["MAXHIST"], c["VIEW"] = procs, acts, atomic, fixed, emit, "999", "VIEW view"
+	return fw.TLCJob{Name: name, Module: "BruteForce", Cfg: "BruteForce_gen.cfg", Workers: 4, Timeout: 10 * time.Minute, Consts: c}
 }
 
 func main() {
 	const asIs = "BanHoldsOrKnown BlacklistHoldsOrKnown"
 	const strict = "BanHolds BlacklistHolds NoDeviation"
 	one, two := `{"h1"}`, `{"h1", "h2"}`
+	race := `{"Bad", "Query", "Tick", "Unban", "MUnban"}`
 	fw.Main(&fw.Property{
 		ID:        "C18",
 		DesignRef: "DESIGN.md §5 C18",
 		ModelJobs: func(env *fw.Env) []fw.TLCJob {
 			if env.Tier == "quick" {
+				lists := `{"Blk", "BlkP", "MUnbl", "Wl", "Query", "Tick", "Unbl", "Anon"}`
 				return []fw.TLCJob{
-					mcJob("mc:race:as-is", two, `{"Bad", "Query", "Tick", "Unban", "MUnban"}`, "FALSE", "{}", asIs, 2, 4),
-					mcJob("mc:race:repaired", two, `{"Bad", "Query", "Tick", "Unban", "MUnban"}`, "FALSE", fixAll, strict, 2, 4),
-					mcJob("mc:seq:as-is", one, `{"Bad", "Good", "Query", "Tick", "Unban", "CleanF", "CleanB", "Clean", "MUnban"}`, "FALSE", "{}", asIs, 2, 5),
-					mcJob("mc:lists:as-is", one, `{"Blk", "BlkP", "MUnbl", "Wl", "Query", "Tick", "Unbl", "Anon"}`, "TRUE", "{}", asIs, 2, 4),
-					mcJob("mc:lists:repaired", one, `{"Blk", "BlkP", "MUnbl", "Wl", "Query", "Tick", "Unbl", "Anon"}`, "TRUE", fixAll, strict, 2, 4),
+					mcJob("mc:race:as-is", two, race, "FALSE", "{}", asIs, tm{2, 3, 2, 2, 4}),
+					mcJob("mc:race:repaired", two, race, "FALSE", fixAll, strict, tm{2, 3, 2, 2, 4}),
+					mcJob("mc:seq:as-is", one, `{"Bad", "Good", "Query", "Tick", "Unban", "CleanF", "CleanB", "Clean", "MUnban"}`, "FALSE", "{}", asIs, tm{2, 3, 2, 2, 5}),
+					mcJob("mc:lists:as-is", one, lists, "TRUE", "{}", asIs, tm{2, 3, 2, 2, 4}),
+					mcJob("mc:lists:repaired", one, lists, "TRUE", fixAll, strict, tm{2, 3, 2, 2, 4}),
 				}
 			}
 			full := `{"Bad", "Good", "Query", "Tick", "Unban", "CleanF", "CleanB", "MUnban"}`
 			lists := `{"Blk", "BlkP", "MUnbl", "Wl", "UnWl", "Query", "Tick", "Unbl", "CleanL", "Anon", "Bad"}`
 			return []fw.TLCJob{
-				mcJob("mc:race-full:as-is", two, full, "FALSE", "{}", asIs, 2, 5),
-				mcJob("mc:race-full:repaired", two, full, "FALSE", fixAll, strict, 2, 5),
-				mcJob("mc:race-ban3:as-is", two, `{"Bad", "Query", "Tick", "Unban", "MUnban"}`, "FALSE", "{}", asIs, 3, 6),
-				mcJob("mc:race-ban3:repaired", two, `{"Bad", "Query", "Tick", "Unban", "MUnban"}`, "FALSE", fixAll, strict, 3, 6),
-				mcJob("mc:lists:as-is", one, lists, "TRUE", "{}", asIs, 2, 4),
-				mcJob("mc:lists:repaired", one, lists, "TRUE", fixAll, strict, 2, 4),
+				mcJob("mc:race-full:as-is", two, full, "FALSE", "{}", asIs, tm{2, 3, 2, 2, 4}),
+				mcJob("mc:race-full:repaired", two, full, "FALSE", fixAll, strict, tm{2, 3, 2, 2, 4}),
+				mcJob("mc:race-ban3:as-is", two, race, "FALSE", "{}", asIs, tm{2, 3, 2, 3, 6}),
+				mcJob("mc:race-ban3:repaired", two, race, "FALSE", fixAll, strict, tm{2, 3, 2, 3, 6}),
+				mcJob("mc:race-thr3:as-is", two, race, "FALSE", "{}", asIs, tm{3, 4, 3, 2, 5}),
+				mcJob("mc:race-thr3:repaired", two, race, "FALSE", fixAll, strict, tm{3, 4, 3, 2, 5}),
+				mcJob("mc:lists:as-is", one, lists, "TRUE", "{}", asIs, tm{2, 3, 2, 2, 4}),
+				mcJob("mc:lists:repaired", one, lists, "TRUE", fixAll, strict, tm{2, 3, 2, 2, 4}),
 			}
 		},
 		GenJobs: func(env *fw.Env) []fw.TLCJob {
@@ -1121,18 +1133,20 @@ func main() {
 			jobs := []fw.TLCJob{
 				// every placement of the asynchronous unban in the graph of two racing handshakes, and every
 				// step at which the as-is model records a deviation / a violation (TLC's counterexamples)
-				genJob("gen:ban:as-is", two, actsBan, "FALSE", "{}", `{"Unban", "dev"}`, 3, 2, mc),
-				genJob("gen:ban:repaired", two, actsBan, "FALSE", fixAll, `{"Unban", "Ban"}`, 3, 2, mc),
+				genJob("gen:ban:as-is", two, actsBan, "FALSE", "{}", `{"Unban", "dev"}`, tm{2, 3, 2, 2, mc}),
+				genJob("gen:ban:repaired", two, actsBan, "FALSE", fixAll, `{"Unban", "Ban"}`, tm{2, 3, 2, 2, mc}),
 				// sequential histories over the whole protector alphabet: one behaviour per transition
-				genJob("gen:seq", one, actsSeq, "TRUE", "{}", allSteps, 3, 2, mc),
-				genJob("gen:lists:as-is", one, actsBl, "TRUE", "{}", allStDev, 3, 2, 3),
-				genJob("gen:gate", one, actsGate, "TRUE", "{}", `{"Hs", "Cred", "Ban", "Query"}`, 3, 2, 2),
+				genJob("gen:seq", one, actsSeq, "TRUE", "{}", allSteps, tm{2, 3, 2, 2, mc}),
+				genJob("gen:lists:as-is", one, actsBl, "TRUE", "{}", allStDev, tm{2, 3, 2, 2, 3}),
+				genJob("gen:gate", one, actsGate, "TRUE", "{}", `{"Hs", "Cred", "Ban", "Query"}`, tm{2, 3, 2, 2, 2}),
 			}
 			if env.Tier == "thorough" {
 				jobs = append(jobs,
-					genJob("gen:lists:repaired", one, actsBl, "TRUE", fixAll, `{"Unbl", "Query"}`, 3, 2, 3),
-					genJob("gen:seq:ban3", one, actsSeq, "TRUE", "{}", allSteps, 4, 3, 6),
-					genJob("gen:ban3:as-is", one, actsBan, "FALSE", "{}", `{"Unban", "dev"}`, 3, 3, 6))
+					genJob("gen:lists:repaired", one, actsBl, "TRUE", fixAll, `{"Unbl", "Query"}`, tm{2, 3, 2, 2, 3}),
+					genJob("gen:seq:ban3", one, actsSeq, "TRUE", "{}", allSteps, tm{2, 4, 2, 3, 6}),
+					genJob("gen:seq:thr3", one, actsSeq, "TRUE", "{}", allSteps, tm{3, 4, 3, 2, 5}),
+					genJob("gen:ban3:as-is", one, actsBan, "FALSE", "{}", `{"Unban", "dev"}`, tm{2, 3, 2, 3, 6}),
+					genJob("gen:thr3:as-is", two, actsBan, "FALSE", "{}", `{"dev"}`, tm{3, 4, 3, 2, 5}))
 			}
 			num := "num=40"
 			if env.Tier == "thorough" {
@@ -1142,7 +1156,7 @@ func main() {
 				num = "num=" + v
 			}
 			for i, fixed := range []string{"{}", fixAll} {
-				j := genJob(fmt.Sprintf("sim:%d", i), two, actsAll, "FALSE", fixed, `{"end"}`, 3, 2, 6)
+				j := genJob(fmt.Sprintf("sim:%d", i), two, actsAll, "FALSE", fixed, `{"end"}`, tm{2, 3, 2, 2, 6})
 				j.Consts["MAXHIST"] = "28"
 				j.Consts["VIEW"] = ""
 				j.Simulate, j.Depth, j.Seed, j.Workers = num, 30, env.Seed+int64(i), 1
